@@ -396,4 +396,280 @@ theorem pairs_nil_of_span_lt (rows : List FullRow) (lag : Nat) (h : span rows < 
   have := diff_le_span rows a ha b hb
   omega
 
+/-! ## (b) `emsd` over the definition -/
+
+/-- the (weight, value) pair with which ONE trajectory enters `emsd`, for any column `col` -/
+theorem particle_contrib (rows : List FullRow) (d : Nat) (mpp fps : Rat) (maxLag lag : Nat)
+    (hnd : NodupFrames rows) (col : Out → Option Rat) :
+    ((rowAt (msd rows d mpp fps maxLag) lag).bind fun o => (col o).map fun v => (o.n, v))
+      = if 1 ≤ lag ∧ lag ≤ min maxLag (span rows)
+        then (col (defRow rows d mpp fps lag)).map fun v => (weightDef rows lag, v) else none := by
+  rw [rowAt_msd rows d mpp fps maxLag lag hnd]
+  split <;> rfl
+
+theorem contrib_perParticle (t : List PRow) (d : Nat) (mpp fps : Rat) (maxLag : Nat)
+    (col : Out → Option Rat) (lag : Nat) :
+    contrib (perParticle t d mpp fps maxLag) col lag
+      = (particleIds t).filterMap fun p =>
+          (rowAt (msd (rowsOf t p) d mpp fps maxLag) lag).bind fun o => (col o).map fun v => (o.n, v) := by
+  unfold contrib perParticle
+  rw [List.filterMap_map]
+  rfl
+
+theorem emsdAt_eq_wmean (per : List (Nat × List Out)) (col : Out → Option Rat) (lag : Nat) :
+    emsdAt per col lag = wmean (contrib per col lag) := rfl
+
+/-- generic form: a column `col` of `emsd` whose per-particle value is `spec rows` (undefined beyond
+the span of the trajectory) is the weighted mean of `spec` over the particles where it is defined -/
+theorem emsd_eq_def_col (t : List PRow) (d : Nat) (mpp fps : Rat) (maxLag lag : Nat)
+    (h1 : 1 ≤ lag) (h2 : lag ≤ maxLag)
+    (hnd : ∀ p ∈ particleIds t, NodupFrames (rowsOf t p))
+    (col : Out → Option Rat) (spec : List FullRow → Option Rat)
+    (hcol : ∀ rows, col (defRow rows d mpp fps lag) = spec rows)
+    (hnone : ∀ rows, span rows < lag → spec rows = none) :
+    emsdAt (perParticle t d mpp fps maxLag) col lag
+      = wmean ((particleIds t).filterMap fun p =>
+          (spec (rowsOf t p)).map fun v => (weightDef (rowsOf t p) lag, v)) := by
+  rw [emsdAt_eq_wmean, contrib_perParticle]
+  congr 1
+  apply List.filterMap_congr
+  intro p hp
+  rw [particle_contrib (rowsOf t p) d mpp fps maxLag lag (hnd p hp) col]
+  split
+  · rw [hcol]
+  · rename_i hlag
+    rw [hnone (rowsOf t p) (by omega)]
+    rfl
+
+/-- **(b) "emsd is the average of the per-particle values weighted by their effective number of
+independent measurements over the particles that contribute at that lag"**, directly over the
+definition: for every multi-particle table with one row per (particle, frame), every `d ≥ 1`, and
+every lag `1 ≤ lag ≤ max_lagtime`, the `msd` column of `emsd` at `lag` is
+`Σ_p N_p·v_p / Σ_p N_p` where `p` ranges over the particles of the table for which at least one pair
+of observations `lag` frames apart exists, `v_p` is the mean over those pairs of the summed squared
+displacement (`msdPairs` of the rows of `p`) and `N_p = weightDef` is the weight the code computes;
+a particle without such a pair (`msdPairs = none`) is dropped by `filterMap`, i.e. contributes
+neither to the numerator nor to the denominator; NaN (`none`) when no particle is left -/
+theorem emsd_eq_def (t : List PRow) (d : Nat) (hd : 0 < d) (mpp fps : Rat) (maxLag lag : Nat)
+    (h1 : 1 ≤ lag) (h2 : lag ≤ maxLag)
+    (hnd : ∀ p ∈ particleIds t, NodupFrames (rowsOf t p)) :
+    emsdAt (perParticle t d mpp fps maxLag) Out.msd lag
+      = wmean ((particleIds t).filterMap fun p =>
+          (msdPairs mpp (List.range d) (rowsOf t p) lag).map fun v =>
+            (weightDef (rowsOf t p) lag, v)) := by
+  apply emsd_eq_def_col t d mpp fps maxLag lag h1 h2 hnd Out.msd
+    (fun rows => msdPairs mpp (List.range d) rows lag)
+  · intro rows
+    exact msdDef_eq_pairMean mpp d hd rows lag
+  · intro rows h
+    exact (msdPairs_none_iff _ _ _ _).mpr (pairs_nil_of_span_lt rows lag h)
+
+theorem getD_map_range {α} (d c : Nat) (hc : c < d) (f : Nat → Option α) :
+    ((List.range d).map f).getD c none = f c := by
+  simp [List.getD_eq_getElem?_getD, hc]
+
+/-- the `<c^2>` column of `emsd(detail=True)`: weighted mean of the per-particle all-pairs mean
+squared displacement along coordinate `c` -/
+theorem emsd_sq_eq_def (t : List PRow) (d c : Nat) (hc : c < d) (mpp fps : Rat) (maxLag lag : Nat)
+    (h1 : 1 ≤ lag) (h2 : lag ≤ maxLag)
+    (hnd : ∀ p ∈ particleIds t, NodupFrames (rowsOf t p)) :
+    emsdAt (perParticle t d mpp fps maxLag) (fun o => o.sqd.getD c none) lag
+      = wmean ((particleIds t).filterMap fun p =>
+          (meanOpt ((pairs (rowsOf t p) lag).map fun q => sq (dispOf mpp c q))).map fun v =>
+            (weightDef (rowsOf t p) lag, v)) := by
+  apply emsd_eq_def_col t d mpp fps maxLag lag h1 h2 hnd (fun o => o.sqd.getD c none)
+    (fun rows => meanOpt ((pairs rows lag).map fun q => sq (dispOf mpp c q)))
+  · intro rows
+    simp only [defRow]
+    rw [getD_map_range d c hc, sqDef_coord]
+  · intro rows h
+    rw [pairs_nil_of_span_lt rows lag h]
+    rfl
+
+/-- the `<c>` column of `emsd(detail=True)`: weighted mean of the per-particle all-pairs mean
+displacement along coordinate `c` -/
+theorem emsd_disp_eq_def (t : List PRow) (d c : Nat) (hc : c < d) (mpp fps : Rat) (maxLag lag : Nat)
+    (h1 : 1 ≤ lag) (h2 : lag ≤ maxLag)
+    (hnd : ∀ p ∈ particleIds t, NodupFrames (rowsOf t p)) :
+    emsdAt (perParticle t d mpp fps maxLag) (fun o => o.disp.getD c none) lag
+      = wmean ((particleIds t).filterMap fun p =>
+          (meanOpt ((pairs (rowsOf t p) lag).map (dispOf mpp c))).map fun v =>
+            (weightDef (rowsOf t p) lag, v)) := by
+  apply emsd_eq_def_col t d mpp fps maxLag lag h1 h2 hnd (fun o => o.disp.getD c none)
+    (fun rows => meanOpt ((pairs rows lag).map (dispOf mpp c)))
+  · intro rows
+    simp only [defRow]
+    rw [getD_map_range d c hc, dispDef_coord]
+  · intro rows h
+    rw [pairs_nil_of_span_lt rows lag h]
+    rfl
+
+theorem wmean_none_iff (c : List (Rat × Rat)) : wmean c = none ↔ c = [] := by
+  unfold wmean
+  constructor
+  · intro h
+    by_cases hc : c.length = 0
+    · exact List.length_eq_zero_iff.mp hc
+    · simp [hc] at h
+  · intro h
+    simp [h]
+
+/-- **NaN exactly when no particle has a pair at the lag** (in range `1 … max_lagtime`) -/
+theorem emsd_def_none_iff (t : List PRow) (d : Nat) (hd : 0 < d) (mpp fps : Rat) (maxLag lag : Nat)
+    (h1 : 1 ≤ lag) (h2 : lag ≤ maxLag)
+    (hnd : ∀ p ∈ particleIds t, NodupFrames (rowsOf t p)) :
+    emsdAt (perParticle t d mpp fps maxLag) Out.msd lag = none
+      ↔ ∀ p ∈ particleIds t, ∀ a ∈ rowsOf t p, ∀ b ∈ rowsOf t p, b.1 - a.1 ≠ (lag : Int) := by
+  rw [emsd_eq_def t d hd mpp fps maxLag lag h1 h2 hnd, wmean_none_iff, List.filterMap_eq_nil_iff]
+  apply forall_congr'
+  intro p
+  apply imp_congr_right
+  intro _
+  rw [Option.map_eq_none_iff, msdPairs_none_iff, pairs_eq_nil_iff]
+
+/-- **max_lagtime clips the ensemble too**: outside `1 … max_lagtime` no particle has a row, every
+column of `emsd` is NaN -/
+theorem emsd_out_of_range (t : List PRow) (d : Nat) (mpp fps : Rat) (maxLag lag : Nat)
+    (h : lag = 0 ∨ maxLag < lag) (hnd : ∀ p ∈ particleIds t, NodupFrames (rowsOf t p))
+    (col : Out → Option Rat) :
+    emsdAt (perParticle t d mpp fps maxLag) col lag = none := by
+  rw [emsdAt_eq_wmean, contrib_perParticle, wmean_none_iff, List.filterMap_eq_nil_iff]
+  intro p hp
+  rw [particle_contrib (rowsOf t p) d mpp fps maxLag lag (hnd p hp) col]
+  rw [if_neg (by omega)]
+
+/-! ## who the particles are -/
+
+theorem mem_insertSorted (x y : Nat) : ∀ (l : List Nat), y ∈ insertSorted x l ↔ y = x ∨ y ∈ l
+  | [] => by simp [insertSorted]
+  | z :: zs => by
+    unfold insertSorted
+    split
+    · simp
+    · split
+      · rename_i hxz
+        subst hxz
+        simp
+      · simp only [List.mem_cons, mem_insertSorted x y zs]
+        tauto
+
+theorem insertSorted_sorted (x : Nat) : ∀ (l : List Nat), l.Pairwise (· < ·) →
+    (insertSorted x l).Pairwise (· < ·)
+  | [], _ => by simp [insertSorted]
+  | z :: zs, h => by
+    have hz := List.pairwise_cons.mp h
+    unfold insertSorted
+    split
+    · rename_i hxz
+      refine List.pairwise_cons.mpr ⟨?_, h⟩
+      intro w hw
+      rcases List.mem_cons.mp hw with rfl | hw'
+      · exact hxz
+      · exact Nat.lt_trans hxz (hz.1 w hw')
+    · split
+      · exact h
+      · refine List.pairwise_cons.mpr ⟨?_, insertSorted_sorted x zs hz.2⟩
+        intro w hw
+        rcases (mem_insertSorted x w zs).mp hw with rfl | hw'
+        · omega
+        · exact hz.1 w hw'
+
+/-- the particles of `emsd_eq_def` are exactly the values of the `particle` column … -/
+theorem mem_particleIds (t : List PRow) (p : Nat) : p ∈ particleIds t ↔ ∃ r ∈ t, r.1 = p := by
+  unfold particleIds
+  induction t with
+  | nil => simp
+  | cons r t ih =>
+    simp only [List.foldr_cons, mem_insertSorted, ih, List.mem_cons, exists_eq_or_imp]
+    constructor
+    · rintro (h | h)
+      · exact Or.inl h.symm
+      · exact Or.inr h
+    · rintro (h | h)
+      · exact Or.inl h.symm
+      · exact Or.inr h
+
+/-- … each counted once (ascending) -/
+theorem particleIds_sorted (t : List PRow) : (particleIds t).Pairwise (· < ·) := by
+  unfold particleIds
+  induction t with
+  | nil => simp
+  | cons r t ih => exact insertSorted_sorted r.1 _ ih
+
+theorem particleIds_nodup (t : List PRow) : (particleIds t).Nodup :=
+  (particleIds_sorted t).imp (fun h => Nat.ne_of_lt h)
+
+/-- the rows of particle `p` are the rows of the table labelled `p` -/
+theorem mem_rowsOf (t : List PRow) (p : Nat) (r : FullRow) : r ∈ rowsOf t p ↔ (p, r) ∈ t := by
+  unfold rowsOf
+  simp only [List.mem_map, List.mem_filter, beq_iff_eq]
+  constructor
+  · rintro ⟨⟨q, r'⟩, ⟨hm, rfl⟩, rfl⟩
+    exact hm
+  · intro h
+    exact ⟨(p, r), ⟨h, rfl⟩, rfl⟩
+
+/-! ## non-vacuity -/
+
+/-- one trajectory, 2 coordinates, frame 2 missing: lag 1 has the pairs 0→1, 3→4; lag 3 the pairs
+0→3, 1→4; lag 5 none -/
+def exRows : List FullRow := [(3, [1, 2]), (0, [0, 0]), (4, [3, 1]), (1, [1, 0])]
+
+/-- two particles (the second: frames 5, 6 only), 2 coordinates, rows interleaved -/
+def exTable : List PRow :=
+  [(1, 3, [1, 2]), (2, 5, [0, 1]), (1, 0, [0, 0]), (1, 4, [3, 1]), (2, 6, [2, 4]), (1, 1, [1, 0])]
+
+/-- `msdDef_eq_pairMean` / `msdDef_none_iff` on `exRows`: a lag with two pairs (values 1 and 5,
+mean 3, in microns² with mpp = 1/2: 3/4), and a lag without any pair where BOTH forms are NaN -/
+example : pairs exRows 1 = [((3, [1, 2]), (4, [3, 1])), ((0, [0, 0]), (1, [1, 0]))] ∧
+    msdPairs (1 / 2) (List.range 2) exRows 1 = some (3 / 4) ∧
+    msdDef (1 / 2) 2 exRows 1 = some (3 / 4) ∧
+    msdPairs (1 / 2) (List.range 2) exRows 5 = none ∧ msdDef (1 / 2) 2 exRows 5 = none := by
+  have h1 : pairs exRows 1 = [((3, [1, 2]), (4, [3, 1])), ((0, [0, 0]), (1, [1, 0]))] := by decide
+  have h5 : pairs exRows 5 = [] := by decide
+  have hr : List.range 2 = [0, 1] := by decide
+  have v1 : msdPairs (1 / 2) (List.range 2) exRows 1 = some (3 / 4) := by
+    simp [msdPairs, h1, hr, sqDisp, dispOf, sq, meanOpt]; norm_num
+  have v5 : msdPairs (1 / 2) (List.range 2) exRows 5 = none := by
+    simp [msdPairs, h5, meanOpt]
+  refine ⟨h1, v1, ?_, v5, ?_⟩
+  · rw [msdDef_eq_pairMean _ _ (by decide), v1]
+  · rw [msdDef_eq_pairMean _ _ (by decide), v5]
+
+/-- the hypotheses of `emsd_eq_def` hold on `exTable` … -/
+example : particleIds exTable = [1, 2] ∧ ∀ p ∈ particleIds exTable, NodupFrames (rowsOf exTable p) := by
+  refine ⟨by decide, ?_⟩
+  unfold NodupFrames
+  decide
+
+/-- … and its right-hand side is a genuine weighted mean there: at lag 1 both particles contribute
+(values 3 and 13, weights `_msd_N(5,1)·4/5 = 16/5` and `_msd_N(2,1) = 1`), at lag 3 only the
+first (the second has no pair 3 frames apart), at lag 5 none -/
+example :
+    emsdAt (perParticle exTable 2 1 1 10) Out.msd 1 = some ((16 / 5 * 3 + 1 * 13) / (16 / 5 + 1)) ∧
+    emsdAt (perParticle exTable 2 1 1 10) Out.msd 3 = some 5 ∧
+    emsdAt (perParticle exTable 2 1 1 10) Out.msd 5 = none := by
+  have hnd : ∀ p ∈ particleIds exTable, NodupFrames (rowsOf exTable p) := by
+    unfold NodupFrames
+    decide
+  rw [emsd_eq_def exTable 2 (by decide) 1 1 10 1 (by decide) (by decide) hnd,
+    emsd_eq_def exTable 2 (by decide) 1 1 10 3 (by decide) (by decide) hnd,
+    emsd_eq_def exTable 2 (by decide) 1 1 10 5 (by decide) (by decide) hnd]
+  have hids : particleIds exTable = [1, 2] := by decide
+  have hr1 : rowsOf exTable 1 = exRows := by decide
+  have hr2 : rowsOf exTable 2 = [(5, [0, 1]), (6, [2, 4])] := by decide
+  have hs1 : span exRows = 4 := by decide
+  have hs2 : span [(5, [0, 1]), (6, [2, 4])] = 1 := by decide
+  have hl1 : exRows.length = 4 := rfl
+  have hr : List.range 2 = [0, 1] := by decide
+  have p11 : pairs exRows 1 = [((3, [1, 2]), (4, [3, 1])), ((0, [0, 0]), (1, [1, 0]))] := by decide
+  have p13 : pairs exRows 3 = [((0, [0, 0]), (3, [1, 2])), ((1, [1, 0]), (4, [3, 1]))] := by decide
+  have p15 : pairs exRows 5 = [] := by decide
+  have p21 : pairs [(5, [0, 1]), (6, [2, 4])] 1 = [((5, [0, 1]), (6, [2, 4]))] := by decide
+  have p23 : pairs [(5, [0, 1]), (6, [2, 4])] 3 = [] := by decide
+  have p25 : pairs [(5, [0, 1]), (6, [2, 4])] 5 = [] := by decide
+  simp [hids, hr1, hr2, hs1, hs2, hl1, hr, p11, p13, p15, p21, p23, p25, msdPairs, weightDef, msdN,
+    wmean, sqDisp, dispOf, sq, meanOpt]
+  norm_num
+
 end TrackpyV.MSD
